@@ -351,6 +351,12 @@ def rule_r7(ctx):
                      "stale handles name a new object" % t.line)
     # who may write the cursor
     ALLOWED = {"nni_id_alloc", "nni_id_map_init"}
+    # file-local helpers that only the allocator calls are part of the allocator
+    cl = prog.callers()
+    for g in prog.fns_in("core/idhash.c"):
+        cs = cl.get(g.name, [])
+        if g.static and cs and all(c_.name in ("nni_id_alloc",) for c_, _ in cs):
+            ALLOWED.add(g.name)
     for g in prog.functions:
         for t in g.assigns():
             lf = last_field(t.node["lhs"]) if t.node["lhs"].get("k") == "mem" else None
